@@ -3,9 +3,9 @@
 patch=$(readlink -f "$1"); shift
 cd /repo || exit 2
 [ -z "$(git status --porcelain -- pyplate)" ] || { echo "/repo not clean"; exit 2; }
-git apply "$patch" 2>/dev/null || git apply -3 "$patch" || { echo "patch does not apply"; git checkout -q -- .; exit 3; }
+git apply "$patch" 2>/dev/null || git apply -3 "$patch" 2>/dev/null || { echo "patch does not apply"; git reset -q --hard HEAD; exit 3; }
 git reset -q 2>/dev/null
-trap 'git -C /repo checkout -q -- .' EXIT
+trap 'git -C /repo reset -q --hard HEAD' EXIT
 cd /verif
 for c in "$@"; do
   out=$(VERIF_SEED=${VERIF_SEED:-0} ./vcheck "$c" ${TIER:-quick} 2>&1); rc=$?
